@@ -526,7 +526,16 @@ func (o *oracles) checkLinearizable() {
 	}
 	const inf = int64(1) << 60
 	byKey := map[byte][]porcupine.Operation{}
+	appliedWids := map[uint64]bool{}
+	for _, rec := range o.appliedAt {
+		appliedWids[rec.wid] = true
+	}
 	for _, op := range o.history {
+		if op.write && !op.known && !appliedWids[op.wid] {
+			// a write with unknown outcome that no replica ever applied never took
+			// effect (the state machines themselves report every application)
+			continue
+		}
 		in := regInput{write: op.write, wid: op.wid}
 		out := regOutput{known: op.known, val: op.outVal, ver: op.outVer}
 		ret := op.ret
@@ -544,13 +553,12 @@ func (o *oracles) checkLinearizable() {
 			out := output.(regOutput)
 			if in.write {
 				ns := KVVal{Val: in.wid, Ver: st.Ver + 1}
-				if out.known {
-					if out.ver != 0 && out.ver != ns.Ver {
-						return nil
-					}
-					return []interface{}{ns}
+				if out.known && out.ver != 0 && out.ver != ns.Ver {
+					return nil
 				}
-				return []interface{}{st, ns} // maybe: took effect once, or never
+				// unknown outcome but applied by some replica: took effect once at
+				// some point after its invocation
+				return []interface{}{ns}
 			}
 			if st.Val == out.val && st.Ver == out.ver {
 				return []interface{}{st}
@@ -567,7 +575,7 @@ func (o *oracles) checkLinearizable() {
 	sort.Ints(keys)
 	for _, k := range keys {
 		ops := byKey[byte(k)]
-		res := porcupine.CheckOperationsTimeout(model, ops, 20*time.Second)
+		res := porcupine.CheckOperationsTimeout(model, ops, 5*time.Second)
 		switch res {
 		case porcupine.Illegal:
 			s.ctx.Violate("C01", "not-linearizable", "history of key %d (%d operations) is not linearizable: %s", k, len(ops), describeOps(ops))
